@@ -2,6 +2,7 @@ package props
 
 import (
 	"fmt"
+	"github.com/go-kid/ioc/container"
 	"reflect"
 	"sort"
 	"strings"
@@ -57,6 +58,10 @@ func (m *recorder) PostProcessProperties(props []*component_definition.Property,
 	m.mu.Lock()
 	defer m.mu.Unlock()
 	for _, p := range props {
+		if p.Tag == "latetag" {
+			m.seen["late:"+name] = append(m.seen["late:"+name], fmt.Sprintf("%s|%s|%s", p.StructField.Name, p.TagVal, p.Args().String()))
+			continue
+		}
 		if p.Tag == "plug" {
 			m.seen["plug:"+name] = append(m.seen["plug:"+name], fmt.Sprintf("%s|%s|%s", p.StructField.Name, p.TagVal, p.Args().String()))
 			continue
@@ -71,6 +76,16 @@ func (m *recorder) PostProcessProperties(props []*component_definition.Property,
 		p.SetArg(component_definition.ArgRequired, "false")
 	}
 	return nil, nil
+}
+
+type lateTagScanner struct {
+	processors.DefaultTagScanDefinitionRegistryPostProcessor
+}
+
+func (m *lateTagScanner) Naming() string { return "verif.latetagscanner" }
+func (m *lateTagScanner) PostProcessComponentFactory(container.Factory) error {
+	m.NodeType, m.Tag = "late", "latetag"
+	return nil
 }
 
 type plugScanner struct {
@@ -524,6 +539,9 @@ func (p c11) compiled(c *core.Ctx) {
 	// carries its tag (and nothing else of these holders)
 	rec := &recorder{seen: map[string][]string{}}
 	extra = append(extra, rec, &mytagScanner{processors.DefaultTagScanDefinitionRegistryPostProcessor{NodeType: "custom", Tag: "mytag"}})
+	// a user tag processor that learns the name of its tag only when the factory is prepared (from the
+	// configuration, say): the definition scan happens after that
+	extra = append(extra, &lateTagScanner{})
 	r := world.Start(g.Sc, world.Options{Extra: extra})
 	c.Count("starts", 1)
 	if r.Outcome() != "ok" {
@@ -539,6 +557,18 @@ func (p c11) compiled(c *core.Ctx) {
 			got := rec.seen["verifharness/world/HolderTaggedEmbeds"]
 			if len(got) != 1 || !strings.HasPrefix(got[0], "Stamped|created|") {
 				c.Fail("", fmt.Sprintf("HolderTaggedEmbeds: the user tag processor for mytag received %v, expected exactly the embedded field Stamped with value \"created\"", got), nil)
+				return
+			}
+		}
+		if _, ok := h.(*world.HolderZeroMarks); ok {
+			got := append([]string(nil), rec.seen["verifharness/world/HolderZeroMarks"]...)
+			sort.Strings(got)
+			if len(got) != 2 || !strings.HasPrefix(got[0], "Del|DELETE /item|") || !strings.HasPrefix(got[1], "List|GET /list|") {
+				c.Fail("", fmt.Sprintf("HolderZeroMarks: the user tag processor for mytag received %v, expected the two zero-size marker fields Del and List of the embedded (zero-size) struct", got), nil)
+				return
+			}
+			if late := rec.seen["late:verifharness/world/HolderZeroMarks"]; len(late) != 1 || !strings.HasPrefix(late[0], "Topic|orders|") {
+				c.Fail("", fmt.Sprintf("HolderZeroMarks: the user tag processor that sets its tag name while the factory is prepared received %v, expected exactly the field Topic with value \"orders\"", late), nil)
 				return
 			}
 		}
